@@ -3,14 +3,20 @@ NOTES = ("All checks are driven by /verif/check (python3, stdlib). Specification
          "/verif/harness (binary gv) and the goml CLI are rebuilt from /repo's working tree on every run with --cfg goml_verif. "
          "Exit 0 = held (KNOWN-FINDING lines for defects listed in known_findings.json), 1 = VIOLATION, 2 = tool error.")
 ENGINES = [
-    {"name": "tlc", "path": "/verif/spec", "serves_properties": ["C01", "C02", "C05", "C06", "C07", "C08", "C09", "C10", "C11", "C12", "C13", "C14", "C15", "C16", "C17", "C18"],
+    {"name": "tlc", "path": "/verif/spec", "serves_properties": ["C01", "C02", "C05", "C06", "C07", "C08", "C09", "C10", "C11", "C12", "C13", "C14", "C15", "C16", "C17", "C18", "C19"],
      "kind_free_text": "TLA+ specifications model-checked / simulated by TLC 1.8"},
-    {"name": "gv", "path": "/verif/harness", "serves_properties": ["C01", "C02", "C05", "C06", "C07", "C08", "C09", "C10", "C11", "C12", "C13", "C14", "C15", "C16", "C17", "C18"],
+    {"name": "gv", "path": "/verif/harness", "serves_properties": ["C01", "C02", "C05", "C06", "C07", "C08", "C09", "C10", "C11", "C12", "C13", "C14", "C15", "C16", "C17", "C18", "C19"],
      "kind_free_text": "Rust conformance harness with path dependencies on /repo/crates/*, and the goml CLI built from /repo"},
 ]
 PENDING = "check not built yet in this round (planned in DESIGN.md §4); not a claim that the technique cannot apply"
 NOT_APPLICABLE = {p: PENDING for p in ["C%02d" % i for i in range(1, 21)]}
 CHECKS = {
+    "C19": {
+        "level": "model_checking",
+        "technique": "Names.tla generates the entity universe and states injectivity / legality / non-capture of name tables; the real naming functions are applied to the universe and the recorded table validated by TLC (NamesCheck.tla); alpha-renaming of one base program to every hostile identifier validated GomlSem vs GoSem + GoStatic",
+        "text": "TLC enumerates 913 internal names over the compiler's separators plus hostile identifiers and up to 4425 types of nesting depth 2; go_ident, encode_ty, go_type_name_for, ty_compact, trait_impl_fn_name, inherent_method_fn_name, ref_struct_name and the array/ref helper namers are applied to all of them by the harness and NamesCheck.tla checks each table for injectivity, legality of the outputs as Go identifiers and that no user-writable identifier lands on a name the output relies on. One base program (functions, parameters, locals, struct, fields, enum, variants, trait, methods, closure, generic, refs, vecs, arrays) is alpha-renamed, each identifier kind to each hostile name (Go keywords, predeclared identifiers, runtime helper names, temporaries, generated helper/instance names): accepted variants must print the same and yield valid Go.",
+        "note": "Quick uses types whose description is short (about 1/8 of the universe) and every second hostile name.",
+    },
     "C14": {
         "level": "model_checking",
         "technique": "BuildOrder.tla enumerates DAG shapes x all build orders with predicted per-step verdicts (TLC checks topological <=> everything builds); each order is executed through the real build/check/link CLI on files; linked Go compared with whole-program Go by GoStatic/GoSem",
